@@ -1,11 +1,289 @@
 package main
 
 import (
+	"flag"
 	"fmt"
+	"go/token"
+	"os"
+	"path/filepath"
+	"runtime"
+	"sort"
+	"strings"
 
-	_ "golang.org/x/tools/go/packages"
-	_ "golang.org/x/tools/go/ssa"
-	_ "golang.org/x/tools/go/ssa/ssautil"
+	"golang.org/x/tools/go/packages"
+	"golang.org/x/tools/go/ssa"
+	"golang.org/x/tools/go/ssa/ssautil"
 )
 
-func main() { fmt.Println("ok") }
+func repoDir() string {
+	if d := os.Getenv("VERIF_REPO"); d != "" {
+		return d
+	}
+	return "/repo"
+}
+
+func verifDir() string {
+	if d := os.Getenv("VERIF_DIR"); d != "" {
+		return d
+	}
+	return "/verif"
+}
+
+func newEngine() *Engine {
+	return &Engine{pkgs: map[string]*ssa.Package{}, cs: NewContracts(), heapSorts: map[string]heapSort{}, obls: map[string]*Obligation{},
+		srcCache: map[string][]string{}, strLits: map[string]string{}, unsup: map[string][]string{}, maxPaths: 4096, usedExt: map[string]bool{},
+		typeIDs: map[string]int{}, unknownCalls: map[string]bool{}, goSites: map[string][]*ssa.Go{}}
+}
+
+// load loads packages (import paths relative to the module, e.g. "rare/pkg/readahead") from the
+// current working tree of the repository and builds SSA for them.
+func (e *Engine) load(pkgPaths []string) error {
+	os.Setenv("GOFLAGS", "-mod=mod")
+	os.Setenv("GOPROXY", "off")
+	os.Setenv("GOSUMDB", "off")
+	os.Setenv("GOTOOLCHAIN", "local")
+	fset := token.NewFileSet()
+	cfg := &packages.Config{Mode: packages.LoadAllSyntax, Dir: repoDir(), Fset: fset, Tests: false}
+	pkgs, err := packages.Load(cfg, pkgPaths...)
+	if err != nil {
+		return err
+	}
+	nerr := 0
+	packages.Visit(pkgs, nil, func(p *packages.Package) {
+		for _, er := range p.Errors {
+			fmt.Fprintln(os.Stderr, "load error:", er)
+			nerr++
+		}
+	})
+	if nerr > 0 {
+		return fmt.Errorf("%d package load errors", nerr)
+	}
+	prog, spkgs := ssautil.AllPackages(pkgs, ssa.InstantiateGenerics)
+	prog.Build()
+	e.prog = prog
+	e.fset = fset
+	for i, sp := range spkgs {
+		if sp != nil {
+			e.pkgs[pkgs[i].PkgPath] = sp
+		}
+	}
+	// all loaded packages of this module
+	for _, sp := range prog.AllPackages() {
+		if strings.HasPrefix(sp.Pkg.Path(), "rare/") || sp.Pkg.Path() == "rare" {
+			e.pkgs[sp.Pkg.Path()] = sp
+		}
+	}
+	// contracts: library externs, then one file per repo package
+	lib, _ := filepath.Glob(filepath.Join(verifDir(), "contracts", "*.vc"))
+	sort.Strings(lib)
+	for _, f := range lib {
+		if err := e.cs.LoadContractFile(f, ""); err != nil {
+			return err
+		}
+	}
+	var paths []string
+	for p := range e.pkgs {
+		paths = append(paths, p)
+	}
+	sort.Strings(paths)
+	for _, p := range paths {
+		rel := strings.TrimPrefix(strings.TrimPrefix(p, "rare"), "/")
+		f := filepath.Join(repoDir(), rel, "verif_contracts.go")
+		if _, err := os.Stat(f); err == nil {
+			if err := e.cs.LoadContractFile(f, p); err != nil {
+				return err
+			}
+		}
+	}
+	return nil
+}
+
+// allFunctions lists the functions (including closures and methods) of a package.
+func (e *Engine) allFunctions(pkgPath string) []*ssa.Function {
+	sp := e.pkgs[pkgPath]
+	if sp == nil {
+		return nil
+	}
+	var out []*ssa.Function
+	seen := map[*ssa.Function]bool{}
+	var add func(f *ssa.Function)
+	add = func(f *ssa.Function) {
+		if f == nil || seen[f] {
+			return
+		}
+		seen[f] = true
+		out = append(out, f)
+		for _, a := range f.AnonFuncs {
+			add(a)
+		}
+	}
+	for fn := range ssautil.AllFunctions(e.prog) {
+		if fn.Pkg == sp && fn.Synthetic == "" {
+			add(fn)
+		} else if fn.Pkg == nil && fn.Origin() != nil && fn.Origin().Pkg == sp {
+			add(fn) // generic instance
+		}
+	}
+	sort.Slice(out, func(i, j int) bool { return funcFullName(out[i]) < funcFullName(out[j]) })
+	return out
+}
+
+func (e *Engine) findFunction(full string) *ssa.Function {
+	for p := range e.pkgs {
+		if strings.HasPrefix(full, p+".") {
+			for _, f := range e.allFunctions(p) {
+				if funcFullName(f) == full {
+					return f
+				}
+			}
+		}
+	}
+	return nil
+}
+
+func main() {
+	if len(os.Args) < 2 {
+		fmt.Fprintln(os.Stderr, "usage: govc verify|check ...")
+		os.Exit(2)
+	}
+	switch os.Args[1] {
+	case "verify":
+		devVerify(os.Args[2:])
+	case "check":
+		os.Exit(runCheck(os.Args[2:]))
+	case "selftest":
+		os.Exit(runSelftest(os.Args[2:]))
+	default:
+		fmt.Fprintln(os.Stderr, "unknown command", os.Args[1])
+		os.Exit(2)
+	}
+}
+
+// devVerify: govc verify -pkgs a,b -funcs f,g [-sweep] [-v]
+func devVerify(args []string) {
+	fs := flag.NewFlagSet("verify", flag.ExitOnError)
+	pkgsF := fs.String("pkgs", "", "comma separated package import paths")
+	funcsF := fs.String("funcs", "", "comma separated full function names (default: all with contracts)")
+	sweep := fs.Bool("sweep", false, "verify every function of the packages (panic-class obligations)")
+	verbose := fs.Bool("v", false, "verbose")
+	timeout := fs.Int("t", 5000, "solver timeout ms")
+	out := fs.String("out", "/tmp/govc-out", "output dir for smt files")
+	fs.Parse(args)
+	e := newEngine()
+	e.verbose = *verbose
+	pk := strings.Split(*pkgsF, ",")
+	if err := e.load(pk); err != nil {
+		fmt.Fprintln(os.Stderr, "load:", err)
+		os.Exit(3)
+	}
+	var fns []*ssa.Function
+	if *funcsF != "" {
+		for _, n := range strings.Split(*funcsF, ",") {
+			f := e.findFunction(n)
+			if f == nil {
+				fmt.Fprintln(os.Stderr, "function not found:", n)
+				os.Exit(3)
+			}
+			fns = append(fns, f)
+		}
+	} else {
+		for _, p := range pk {
+			for _, f := range e.allFunctions(p) {
+				if *sweep || e.cs.Funcs[funcFullName(f)] != nil {
+					fns = append(fns, f)
+				}
+			}
+		}
+	}
+	for _, f := range fns {
+		if err := e.verifyFunction(f, *sweep); err != nil {
+			fmt.Fprintln(os.Stderr, err)
+		}
+	}
+	os.RemoveAll(*out)
+	e.discharge(*out, *timeout, false, runtime.NumCPU())
+	e.printSummary(*verbose)
+}
+
+func (e *Engine) printSummary(verbose bool) {
+	total, ok := 0, 0
+	for _, name := range e.oblOrder {
+		ob := e.obls[name]
+		if ob.Class == "canary" {
+			if ob.status() == "unsat" {
+				fmt.Printf("  VACUOUS %s\n", name)
+			}
+			continue
+		}
+		total++
+		res := ob.status()
+		if res == "unsat" {
+			ok++
+			if verbose {
+				fmt.Printf("  ok   %s (%d paths)\n", name, len(ob.VCs))
+			}
+			continue
+		}
+		fmt.Printf("  FAIL %s [%s] %s\n        %s\n", name, res, ob.Pos, ob.Desc)
+		for _, vc := range ob.VCs {
+			if vc.Result != "unsat" {
+				fmt.Printf("        path %s: %s by %s (%d ms)\n", vc.Trace, vc.Result, vc.Solver, vc.Ms)
+				if vc.Result == "sat" && verbose {
+					m := parseModel(vc.Model)
+					var ks []string
+					for k := range m {
+						if strings.HasPrefix(k, "p:") || strings.HasPrefix(k, "fv:") || strings.HasPrefix(k, "phi:") {
+							ks = append(ks, k)
+						}
+					}
+					sort.Strings(ks)
+					for _, k := range ks {
+						fmt.Printf("          %s = %s\n", k, m[k])
+					}
+				}
+				break
+			}
+		}
+	}
+	for f, u := range e.unsup {
+		fmt.Printf("  UNSUPPORTED %s: %s\n", f, strings.Join(dedupe(u), "; "))
+	}
+	var uk []string
+	for k := range e.unknownCalls {
+		uk = append(uk, k)
+	}
+	sort.Strings(uk)
+	if verbose {
+		for _, k := range uk {
+			fmt.Println("  unknown call:", k)
+		}
+	}
+	fmt.Printf("functions: %d, obligations: %d, discharged: %d\n", len(e.funcsDone), total, ok)
+}
+
+func dedupe(xs []string) []string {
+	seen := map[string]bool{}
+	var out []string
+	for _, x := range xs {
+		if !seen[x] {
+			seen[x] = true
+			out = append(out, x)
+		}
+	}
+	return out
+}
+
+func (ob *Obligation) status() string {
+	res := "unsat"
+	for _, vc := range ob.VCs {
+		if vc.Result != "unsat" {
+			if vc.Result == "sat" {
+				return "sat"
+			}
+			res = vc.Result
+		}
+	}
+	return res
+}
+
+func runSelftest(args []string) int { fmt.Println("not yet"); return 3 }
